@@ -11,6 +11,7 @@ ops
   nj    <n> <n*n rationals>   -> same
   write <inc 0|1> <labels> <tree>   -> ok <string>      Tree.to_newick(labels, include_distance)
   read  <labels> <string>           -> ok <tree>        Tree.from_newick(string, labels)
+  nread <labels> <string>           -> ok <tree> <dist> TreeNode.from_newick(string, labels)
   dist  <topo> <i> <j> <tree>       -> ok <rational>    Tree.get_distance
   ndist <topo> <p> <q> <tree>       -> ok <rational>    TreeNode.distance_to
   lca   <p> <q> <tree>              -> ok <path>        TreeNode.lowest_common_ancestor
@@ -303,7 +304,8 @@ def _tree_cases(rng, tier):
         if ws_seed is not None:
             s = _inject_ws(_r.Random(ws_seed), s)
         out.append({"kind": "newick", "tree": tree, "labels": labels, "inc": inc, "ws_seed": ws_seed,
-                    "ops": [f"write {inc} {_labels(labels)} {tok}", f"read {_labels(labels)} {_str(s)}"]})
+                    "ops": [f"write {inc} {_labels(labels)} {tok}", f"read {_labels(labels)} {_str(s)}",
+                            f"nread {_labels(labels)} {_str(s.rstrip().rstrip(';'))}"]})
     # --- distances / LCA
     ops = []
     pairs = []
@@ -325,6 +327,8 @@ def _tree_cases(rng, tier):
     out.append({"kind": "binary", "tree": tree, "ops": [f"binary {tok}"]})
     out.append({"kind": "copy", "tree": tree, "ops": [f"copy {tok}"]})
     out.append({"kind": "accessors", "tree": tree})
+    out.append({"kind": "api", "tree": tree, "seed": rng.randint(0, 10**9)})
+    out.append({"kind": "refused", "tree": tree, "seed": rng.randint(0, 10**9)})
     return out
 
 
@@ -416,6 +420,18 @@ def cases(rng, tier):
                 S = S * q // math.gcd(S, q)
             m = [[(0 if (i < k) == (j < k) else c * S) for j in range(n)] for i in range(n)]
             yield _matrix_case("nj_blocks", "nj", m, True, additive=True)
+    # ---------------- finite but huge entries: float32 sums overflow (oracle only)
+    for _ in range(4 if quick else 30):
+        n = rng.choice([4, 5, 6])
+        mag = rng.choice([1e38, 2e38, 3e38, 8e37])
+        m = [[0.0 if i == j else mag * (1.0 if rng.random() < 0.7 else 0.5) for j in range(n)] for i in range(n)]
+        m = [[m[min(i, j)][max(i, j)] for j in range(n)] for i in range(n)]
+        yield _matrix_case("matrix_overflow", rng.choice(["upgma", "nj"]), m, False)
+    # ---------------- wrong shapes (oracle only): must be refused cleanly, never crash
+    for shape in ([3, 4], [4], [4, 4, 2], [4, 3], [1, 1], [2, 2, 2]):
+        for algo in ("upgma", "nj"):
+            yield {"kind": "matrix_shape", "algo": algo, "shape": shape}
+    yield {"kind": "deep_tree", "depth": 300000}
     # ---------------- malformed matrices (both sides must agree on the rejection)
     for _ in range(30 if quick else 300):
         n = rng.choice([0, 1, 2, 3, 4, 5])
@@ -476,7 +492,7 @@ def cases(rng, tier):
             s = _mutate_newick(rng, base)
         else:
             s = base
-        yield {"kind": "newick_malformed", "ops": [f"read {_labels(labels)} {_str(s)}"]}
+        yield {"kind": "newick_malformed", "ops": [f"read {_labels(labels)} {_str(s)}", f"nread {_labels(labels)} {_str(s)}"]}
     for _ in range(20 if quick else 200):
         n = rng.choice([1, 2, 3])
         tree = _rand_tree(rng, n)
@@ -625,6 +641,9 @@ def run_impl(case):
             elif w[0] == "read":
                 t = phylo.Tree.from_newick(_ustr(w[2]), _ulabels(w[1]))
                 out.append("ok " + _dump(t.root))
+            elif w[0] == "nread":
+                node, dist = phylo.TreeNode.from_newick(_ustr(w[2]), _ulabels(w[1]))
+                out.append("ok " + _dump(node) + " " + _rat(Fraction(dist)))
             elif w[0] == "dist":
                 t = phylo.Tree(_build(_parse_tok(w[4])))
                 out.append("ok " + _rat(Fraction(t.get_distance(int(w[2]), int(w[3]), w[1] == "1"))))
@@ -747,35 +766,148 @@ def _lca(a, b):
         raise _QueryRaised(f"lowest_common_ancestor raised {type(e).__name__}: {e}")
 
 
+def _layout_variants(base, big):
+    """The same matrix in other memory layouts / dtypes: (name, array) pairs; all must give the reference tree."""
+    import numpy as np
+    n = base.shape[0]
+    out = [("float64-C", base.copy()), ("float64-F", np.asfortranarray(base)), ("float64-transposed-view", base.T),
+           ("float32-C", base.astype(np.float32))]
+    if big:
+        return out
+    wide = np.zeros((2 * n + 1, 3 * n + 2))
+    wide[1::2, 2::3][:n, :n] = base
+    out.append(("float64-strided", wide[1::2, 2::3][:n, :n]))
+    cont = base[::-1, ::-1].copy()
+    out.append(("float64-negative-strides", cont[::-1, ::-1]))
+    ro = base.copy()
+    ro.setflags(write=False)
+    out.append(("float64-read-only", ro))
+    out.append(("float64-byteswapped", base.astype(">f8")))
+    out.append(("float32-F", np.asfortranarray(base.astype(np.float32))))
+    out.append(("longdouble", base.astype(np.longdouble)))
+    if n and np.all(base == np.floor(base)):
+        mx = float(base.max()) if base.size else 0.0
+        for dt, lim in ((np.int64, 2.0**62), (np.uint64, 2.0**62), (np.int32, 2.0**31 - 1), (np.uint16, 65535.0),
+                        (np.int8, 127.0), (np.uint8, 255.0)):
+            if mx <= lim:
+                out.append((np.dtype(dt).name + "-C", base.astype(dt)))
+        if mx <= 2.0**31 - 1:
+            out.append(("int32-F", np.asfortranarray(base.astype(np.int32))))
+    if base.size and float(base.max()) < 60000.0 and np.all(base.astype(np.float16).astype(np.float64) == base):
+        out.append(("float16-C", base.astype(np.float16)))
+    return out
+
+
 def _input_checks(fn, algo, M, n, desc, big):
-    """The caller's matrix is never modified and a second call on the same array gives the same tree."""
+    """Memory layout and dtype of a valid matrix do not matter, the caller's array is never modified, and a
+    second call on the same array gives the same tree."""
+    import warnings
     import numpy as np
     from biotite.sequence import phylo
-    dtypes = [np.float32] if big else [np.float32, np.float64]
-    if all(float(x) == int(float(x)) and abs(float(x)) < 2**31 for row in M for x in row):
-        dtypes.append(np.int64 if not big else np.int32)
-    for dt in dtypes:
-        arr = np.array([[float(x) for x in row] for row in M], dtype=np.float64).reshape(n, n).astype(dt)
-        before = arr.copy()
+    base = np.array([[float(x) for x in row] for row in M], dtype=np.float64).reshape(n, n)
+    ref = None
+    for name, arr in _layout_variants(base, big):
+        before = arr.tobytes()
+        flags = (arr.flags.c_contiguous, arr.flags.f_contiguous, arr.flags.writeable, arr.dtype.str, arr.strides)
         try:
-            t1 = fn(arr)
-            same1 = arr.tobytes() == before.tobytes()
-            t2 = fn(arr)
-            same2 = arr.tobytes() == before.tobytes()
+            with warnings.catch_warnings():
+                warnings.simplefilter("ignore")      # float16 input: numpy warns when comparing with MAX_FLOAT
+                t1 = fn(arr)
+                same1 = arr.tobytes() == before
+                t2 = fn(arr)
+                same2 = arr.tobytes() == before
         except Exception as e:  # noqa: BLE001
-            return [(f"C19/{algo}/rejects-valid-matrix", f"dtype {np.dtype(dt).name}: {type(e).__name__}: {e} for {desc}")]
-        if not (same1 and same2):
+            return [(f"C19/{algo}/rejects-valid-matrix-layout" if name != "float64-C" else f"C19/{algo}/rejects-valid-matrix",
+                     f"{name} array: {type(e).__name__}: {e} for {desc}")]
+        if not (same1 and same2) or flags != (arr.flags.c_contiguous, arr.flags.f_contiguous, arr.flags.writeable,
+                                               arr.dtype.str, arr.strides):
             return [(f"C19/{algo}/input-matrix-modified",
-                     f"the caller's {np.dtype(dt).name} distance matrix was changed by {algo}: {desc}")]
+                     f"the caller's {name} distance matrix was changed by {algo}: {desc}")]
         if not isinstance(t1, phylo.Tree) or not isinstance(t2, phylo.Tree):
-            return [(f"C19/{algo}/returns-no-tree", f"dtype {np.dtype(dt).name}: {t1!r} / {t2!r} for {desc}")]
+            return [(f"C19/{algo}/returns-no-tree", f"{name} array: {t1!r} / {t2!r} for {desc}")]
         if t1.to_newick() != t2.to_newick():
             return [(f"C19/{algo}/second-call-differs",
-                     f"two calls on the same {np.dtype(dt).name} array give {t1.to_newick()[:120]} and {t2.to_newick()[:120]}: {desc}")]
+                     f"two calls on the same {name} array give {t1.to_newick()[:120]} and {t2.to_newick()[:120]}: {desc}")]
+        if ref is None:
+            ref = t1.to_newick()
+        elif t1.to_newick() != ref:
+            return [(f"C19/{algo}/layout-or-dtype-changes-tree",
+                     f"{name} array gives {t1.to_newick()[:150]} but the C-ordered float64 copy gives {ref[:150]}: {desc}")]
     return []
 
 
 def _oracle_matrix(case):
+    """Wrapper: finite matrices whose float32 row sums can overflow are reported under their own key."""
+    raw = case.get("matrix")
+    risk = False
+    if raw is not None and not case.get("exact"):
+        vals = [float(x) for row in raw for x in row]
+        fin = [v for v in vals if math.isfinite(v)]
+        risk = bool(fin) and len(fin) == len(vals) and max(fin) < 3.4e38 and max(fin) * 2 * max(len(raw), 2) > 3.4e38
+    try:
+        r = _oracle_matrix_inner(case)
+    except (ValueError, OverflowError, ZeroDivisionError) as e:
+        if not risk:
+            raise
+        r = [("nan-or-inf-in-result", f"{type(e).__name__}: {e} for {str(raw)[:300]}")]
+    if risk and r:
+        return [(f"C19/{case['algo']}/float32-overflow-on-finite-matrix", f"[{k}] {m}") for k, m in r[:1]]
+    return r
+
+
+def _oracle_shape(case):
+    """Arrays that are not square matrices are refused with an exception (in a forked child: never a crash)."""
+    from common import sandbox
+
+    def call(algo, shape):
+        import numpy as np
+        from biotite.sequence import phylo
+        a = np.zeros(shape)
+        before = a.tobytes()
+        try:
+            r = (phylo.upgma if algo == "upgma" else phylo.neighbor_joining)(a)
+        except (ValueError, IndexError, TypeError) as e:
+            return ("refused", type(e).__name__, a.tobytes() == before)
+        return ("returned", type(r).__name__, a.tobytes() == before)
+    res = sandbox.run_forked(call, case["algo"], tuple(case["shape"]), timeout=60)
+    if res[0] != "ok":
+        return [(f"C19/{case['algo']}/crash-on-bad-shape", f"shape {case['shape']}: {res}")]
+    verdict, what, same = res[1]
+    if not same:
+        return [(f"C19/{case['algo']}/input-matrix-modified", f"zeros{tuple(case['shape'])} changed by a refused call")]
+    shape = case["shape"]
+    square = len(shape) == 2 and shape[0] == shape[1]
+    if verdict == "returned" and not (square and case["algo"] == "upgma" and what == "Tree"):
+        return [(f"C19/{case['algo']}/accepts-non-square", f"shape {shape} returned {what}")]
+    return []
+
+
+def _oracle_deep(case):
+    """A very deep tree must not kill the process (RecursionError is acceptable)."""
+    from common import sandbox
+
+    def run(depth):
+        from biotite.sequence.phylo import Tree, TreeNode
+        node = TreeNode(index=0)
+        for _ in range(depth):
+            node = TreeNode([node], [1.0])
+        try:
+            t = Tree(TreeNode([node, TreeNode(index=1)], [1.0, 1.0]))
+            return t.get_distance(0, 1)
+        except RecursionError:
+            return "RecursionError"
+    res = sandbox.run_forked(run, case["depth"], timeout=120)
+    if res[0] == "crash":
+        return [("C19/crash/deep-tree-recursion-segfault",
+                 f"Tree() on a chain of {case['depth']} one-child nodes kills the process (signal {res[1]})")]
+    if res[0] == "timeout":
+        return [("C19/crash/deep-tree-hang", f"depth {case['depth']}")]
+    if res[0] == "ok" and res[1] not in ("RecursionError", float(case["depth"] + 2)):
+        return [("C19/distance/get_distance-vs-path-sum", f"deep chain: {res[1]} instead of {case['depth'] + 2}")]
+    return []
+
+
+def _oracle_matrix_inner(case):
     import numpy as np
     from biotite.sequence import phylo
 
@@ -791,9 +923,12 @@ def _oracle_matrix(case):
         and all(M[i][i] == 0 for i in range(n)) and n >= (4 if algo == "nj" else 2)
     fn = phylo.upgma if algo == "upgma" else phylo.neighbor_joining
     v = []
+    arr_before = arr.tobytes()
     try:
         tree = fn(arr)
     except Exception as e:  # noqa: BLE001
+        if arr.tobytes() != arr_before:
+            return [(f"C19/{algo}/input-matrix-modified", f"a refused call changed the matrix {desc}")]
         if valid:
             v.append((f"C19/{algo}/rejects-valid-matrix", f"{type(e).__name__}: {e} for {desc}"))
         return v
@@ -1045,6 +1180,270 @@ def _oracle_accessors(case):
     return []
 
 
+def _perm_children(node, rr):
+    """Rebuild a subtree with the children of every node in a shuffled order."""
+    from biotite.sequence.phylo import TreeNode
+    if node.is_leaf():
+        return TreeNode(index=node.index)
+    ch = list(node.children)
+    rr.shuffle(ch)
+    return TreeNode([_perm_children(c, rr) for c in ch], [c.distance for c in ch])
+
+
+def _oracle_api(case):
+    """Reuse of one object, other spellings of the same argument, and the less used entry points."""
+    import random as _r
+    import numpy as np
+    from biotite.sequence import phylo
+    rr = _r.Random(case["seed"])
+    tree = phylo.Tree(_build(case["tree"]))
+    fresh = phylo.Tree(_build(case["tree"]))
+    n = len(tree)
+    snap = _snapshot(tree)
+    V = []
+
+    def bad(key, msg):
+        V.append((f"C19/api/{key}", f"{msg}; tree {snap[3][:200]}"))
+    # --- state across calls on one object: every read twice, interleaved with the producers
+    reads1 = (tree.to_newick(), str(tree), hash(tree), len(tree), tree.to_newick(include_distance=False))
+    b1 = phylo.as_binary(tree)
+    c1 = tree.copy()
+    g1 = tree.as_graph()
+    reads2 = (tree.to_newick(), str(tree), hash(tree), len(tree), tree.to_newick(include_distance=False))
+    b2 = phylo.as_binary(tree)
+    if reads1 != reads2 or _snapshot(tree) != snap or _snapshot(fresh) != snap:
+        bad("state-across-calls", "reads on one Tree object changed after as_binary/copy/as_graph")
+    if b1.to_newick() != b2.to_newick() or _snapshot(b1) != _snapshot(b2) or _snapshot(c1) != snap:
+        bad("state-across-calls", "as_binary/copy twice on one object differ")
+    if str(tree) != tree.to_newick() or str(tree.root) + ";" != tree.to_newick():
+        bad("str", f"str(tree) = {str(tree)[:80]}")
+    if not (tree == fresh and fresh == tree and hash(tree) == hash(fresh) and not (tree != fresh)):
+        bad("eq-hash", "equal trees compare unequal or hash differently")
+    # __eq__/__hash__ ignore the order of children, but not a branch length
+    perm = phylo.Tree(_perm_children(tree.root, rr))
+    if not (perm == tree and hash(perm) == hash(tree)):
+        bad("eq-hash", f"tree with permuted children {perm.to_newick()[:120]} is not == / hash differs")
+    if _pair_dists(perm) != snap[2]:
+        bad("eq-hash", "permuting children changed leaf distances")
+    nodes = [x for x, _ in _depths(tree.root).values()]
+    inner = [x for x in nodes if not x.is_leaf()]
+    if n >= 2 and inner:
+        other = _build(case["tree"])
+        victim = rr.choice([x for x, _ in _depths(other).values() if x.parent is not None])
+        par = victim.parent
+        rebuilt = None
+
+        def rebuild(node):
+            from biotite.sequence.phylo import TreeNode
+            if node.is_leaf():
+                return TreeNode(index=node.index)
+            return TreeNode([rebuild(c) for c in node.children],
+                            [c.distance + (0.25 if c is victim else 0.0) for c in node.children])
+        rebuilt = phylo.Tree(rebuild(other))
+        if rebuilt == tree and par is not None:
+            bad("eq-hash", "a tree with one branch length changed by 0.25 still compares equal")
+    # --- node properties
+    for x in nodes:
+        if x.is_leaf() != (x.children is None) or (x.index is None) != (not x.is_leaf()):
+            bad("node-properties", "is_leaf / children / index disagree")
+        if (x.parent is None) != (x is tree.root) or x.is_root() != (x is tree.root):
+            bad("node-properties", "parent / is_root disagree")
+        if x is not tree.root and (x.distance is None or not any(c is x for c in x.parent.children)):
+            bad("node-properties", "distance / parent.children disagree")
+        if x.get_leaf_count() != len(x.get_leaves()) or [l.index for l in x.get_leaves()] != [int(i) for i in x.get_indices()]:
+            bad("node-properties", "get_leaf_count / get_leaves / get_indices disagree")
+    if tree.root.distance is not None:
+        bad("node-properties", "root.distance is not None")
+    # --- as_graph: a tree with the same edge lengths
+    if len(nodes) == 1:
+        pass        # as_graph() only adds edges: a single-leaf tree gives the empty graph (nothing to compare)
+    elif g1.number_of_nodes() != len(nodes) or g1.number_of_edges() != len(nodes) - 1:
+        bad("as_graph", f"{g1.number_of_nodes()} nodes / {g1.number_of_edges()} edges for {len(nodes)} tree nodes")
+    else:
+        und = g1.to_undirected()
+        import networkx as nx
+        for _ in range(3):
+            i, j = rr.randrange(n), rr.randrange(n)
+            try:
+                dg = nx.shortest_path_length(und, i, j, weight="distance")
+            except Exception as e:  # noqa: BLE001
+                bad("as_graph", f"no path {i}-{j}: {type(e).__name__}")
+                break
+            if abs(dg - snap[2][i][j]) > 1e-9 * max(1.0, abs(snap[2][i][j])):
+                bad("as_graph", f"graph distance {i}-{j} = {dg}, tree says {snap[2][i][j]}")
+    # --- Tree level and TreeNode level of the same operation, every optional parameter
+    labels = ["L%d_%s" % (k, "x" * (k % 3)) for k in range(n)]
+    for kw in ({}, {"include_distance": False}, {"labels": labels}, {"labels": labels, "include_distance": False},
+               {"round_distance": 2}, {"labels": labels, "round_distance": 0}):
+        a = tree.to_newick(**kw)
+        b = tree.root.to_newick(**kw) + ";"
+        pos = tree.to_newick(kw.get("labels"), kw.get("include_distance", True), kw.get("round_distance"))
+        if a != b or a != pos:
+            bad("levels", f"Tree.to_newick({kw}) = {a[:80]} but TreeNode/positional give {b[:80]} / {pos[:80]}")
+        lab = kw.get("labels")
+        back = phylo.Tree.from_newick(a, lab)
+        node_back, d_back = phylo.TreeNode.from_newick(a[:-1], lab)
+        if _dump(back.root) != _dump(node_back) or d_back != 0:
+            bad("levels", f"Tree.from_newick and TreeNode.from_newick differ on {a[:80]}")
+        if _struct(back.root, False) != _struct(tree.root, False):
+            bad("levels", f"{a[:80]} read back with another topology")
+        if "round_distance" in kw:
+            k = kw["round_distance"]
+            ok = all(abs(float(x) - float(y)) <= 0.5 * 10 ** (-k) + 1e-6 * abs(float(y)) + 1e-12
+                     for x, y in zip(_flat_dists(back.root), _flat_dists(tree.root)))
+            if not ok or any(len(tok.split(".")[1]) != k if k else "." in tok
+                             for tok in re.findall(r":(-?[0-9.]+)", a)):
+                bad("round_distance", f"round_distance={k} wrote {a[:100]}")
+    # --- same value, another spelling
+    lab_variants = [tuple(labels), np.array(labels), [np.str_(l) for l in labels]]
+    for lv in lab_variants:
+        try:
+            if tree.to_newick(labels=lv) != tree.to_newick(labels=labels):
+                bad("spelling", f"labels as {type(lv).__name__} give another string")
+        except (TypeError, ValueError):
+            pass
+    for _ in range(4):
+        i, j = rr.randrange(n), rr.randrange(n)
+        want = snap[2][i][j]
+        wt = tree.get_distance(i, j, True)
+        for conv in (np.int8, np.int16, np.int32, np.int64, np.uint8, np.uint16, np.uint32, np.uint64, np.intp):
+            if i > 127 or j > 127:
+                continue
+            try:
+                got = tree.get_distance(conv(i), conv(j))
+                gt = tree.get_distance(conv(i), conv(j), np.bool_(True))
+                g1_ = tree.get_distance(i, j, 1)
+            except (TypeError, IndexError, OverflowError):
+                continue
+            if got != want or gt != wt or g1_ != wt:
+                bad("spelling", f"get_distance({conv.__name__}({i}), {conv.__name__}({j})) = {got}, int arguments give {want}")
+        try:
+            neg = tree.get_distance(i - n, j - n)
+            if neg != want:
+                bad("spelling", f"get_distance({i - n}, {j - n}) = {neg} but get_distance({i}, {j}) = {want}")
+        except IndexError:
+            pass
+        a, b = tree.leaves[i], tree.leaves[j]
+        if a.distance_to(b) != want or a.distance_to(b, topological=True) != wt or b.distance_to(a, False) != want:
+            bad("levels", "TreeNode.distance_to and Tree.get_distance differ")
+    for conv in (np.int8, np.int32, np.int64, np.uint8, np.uint64, int):
+        try:
+            nd = phylo.TreeNode(index=conv(3))
+            if nd.index != 3 or not nd.is_leaf():
+                bad("spelling", f"TreeNode(index={conv.__name__}(3)).index = {nd.index}")
+        except (TypeError, OverflowError):
+            pass
+    for val in (1.5, np.float64(1.5), 2, True):
+        try:
+            nd = phylo.TreeNode([phylo.TreeNode(index=0)], [val])
+            if nd.children[0].distance != float(val):
+                bad("spelling", f"distance given as {type(val).__name__} stored as {nd.children[0].distance}")
+        except TypeError:
+            pass
+    for seq in (tuple, list, np.array):
+        try:
+            kids = [phylo.TreeNode(index=0), phylo.TreeNode(index=1)]
+            container = seq(kids) if seq is not np.array else np.array(kids, dtype=object)
+            nd = phylo.TreeNode(container, seq([1.0, 2.5]) if seq is not np.array else [1.0, 2.5])
+            if [c.distance for c in nd.children] != [1.0, 2.5] or nd.children[0] is not kids[0]:
+                bad("spelling", f"children given as {seq.__name__}")
+        except TypeError:
+            pass
+    if _snapshot(tree) != snap:
+        bad("state-across-calls", "the tree changed during the API walk")
+    return V[:1]
+
+
+def _flat_dists(node):
+    out = []
+    if not node.is_leaf():
+        for c in node.children:
+            out.append(c.distance)
+            out += _flat_dists(c)
+    return out
+
+
+def _oracle_refused(case):
+    """A call that raises changes neither the receiver nor its arguments."""
+    import random as _r
+    from biotite.sequence import phylo
+    rr = _r.Random(case["seed"])
+    tree = phylo.Tree(_build(case["tree"]))
+    n = len(tree)
+    snap = _snapshot(tree)
+    V = []
+    labels = ["l%d" % k for k in range(n)]
+
+    def refused(name, fn, excs, args_check=None):
+        try:
+            fn()
+        except excs:
+            pass
+        except _QueryRaised:
+            pass
+        except Exception as e:  # noqa: BLE001
+            V.append((f"C19/refused/{name}-unexpected-exception", f"{type(e).__name__}: {e}"))
+            return
+        else:
+            V.append((f"C19/refused/{name}-not-refused", f"no exception; tree {snap[3][:150]}"))
+            return
+        if _snapshot(tree) != snap:
+            V.append((f"C19/refused/{name}-changes-tree", f"tree {snap[3][:150]}"))
+        if args_check is not None and not args_check():
+            V.append((f"C19/refused/{name}-changes-arguments", f"tree {snap[3][:150]}"))
+    bad_labels = list(labels)
+    bad_labels[rr.randrange(n)] = "a" + rr.choice(ILLEGAL) + "b"
+    keep = list(bad_labels)
+    refused("to_newick-illegal-label", lambda: tree.to_newick(labels=bad_labels), (ValueError,), lambda: bad_labels == keep)
+    short = labels[:n - 1]
+    refused("to_newick-short-labels", lambda: tree.to_newick(labels=short), (IndexError, UnboundLocalError),
+            lambda: short == labels[:n - 1])
+    refused("get_distance-out-of-range", lambda: tree.get_distance(0, n + rr.randint(0, 3)), (IndexError,))
+    refused("from_newick-garbage", lambda: phylo.Tree.from_newick("((0,1)", None), (Exception,))
+    lab2 = list(labels)
+    refused("from_newick-unknown-label", lambda: phylo.Tree.from_newick("(zz,l0);", lab2), (ValueError,), lambda: lab2 == labels)
+    foreign = phylo.Tree(_build(case["tree"]))
+    refused("distance_to-other-tree", lambda: tree.leaves[0].distance_to(foreign.leaves[0]), (phylo.TreeError,))
+    inner = [x for x, _ in _depths(tree.root).values() if x.parent is not None]
+    if inner:
+        x = rr.choice(inner)
+        refused("as_root-on-child", lambda: x.as_root(), (phylo.TreeError,))
+        refused("Tree-on-child", lambda: phylo.Tree(x), (phylo.TreeError,))
+        kids, ds = [phylo.TreeNode(index=0), x], [1.0, 2.0]
+        refused("TreeNode-with-owned-child", lambda: phylo.TreeNode(kids, ds), (phylo.TreeError,),
+                lambda: kids[1] is x and ds == [1.0, 2.0])
+        # the fresh child listed before the owned one must stay free
+        if kids[0].parent is not None:
+            V.append(("C19/refused/TreeNode-constructor-adopts-earlier-children",
+                      "TreeNode([fresh, owned], …) raises TreeError but `fresh` now has a parent and cannot be used again"))
+    fresh_kids = [phylo.TreeNode(index=0), phylo.TreeNode(index=1)]
+    for name, call, excs in (
+            ("TreeNode-length-mismatch", lambda: phylo.TreeNode(fresh_kids, [1.0]), (ValueError,)),
+            ("TreeNode-same-child-twice", lambda: phylo.TreeNode([fresh_kids[0], fresh_kids[0]], [1.0, 1.0]), (phylo.TreeError,)),
+            ("TreeNode-bad-distance-type", lambda: phylo.TreeNode(fresh_kids, [1.0, "x"]), (TypeError,)),
+            ("TreeNode-no-children", lambda: phylo.TreeNode([], []), (phylo.TreeError,)),
+            ("TreeNode-negative-index", lambda: phylo.TreeNode(index=-1), (ValueError, OverflowError)),
+            ("TreeNode-index-and-children", lambda: phylo.TreeNode(fresh_kids, [1.0, 1.0], index=2), (TypeError,))):
+        refused(name, call, excs)
+    if any(k.parent is not None for k in fresh_kids):
+        V.append(("C19/refused/TreeNode-constructor-adopts-children", "a refused TreeNode(...) attached its children"))
+    else:
+        ok = phylo.TreeNode(fresh_kids, [1.0, 2.0])        # the next valid call behaves as on fresh objects
+        if [c.distance for c in ok.children] != [1.0, 2.0]:
+            V.append(("C19/refused/next-valid-call-differs", "children reused after refused constructors"))
+    # Tree() refusing a root must leave the root usable
+    root = phylo.TreeNode([phylo.TreeNode(index=0), phylo.TreeNode(index=n + 5)], [1.0, 1.0])
+    try:
+        phylo.Tree(root)
+        V.append(("C19/refused/Tree-index-out-of-range-not-refused", ""))
+    except phylo.TreeError:
+        if root.is_root():
+            V.append(("C19/refused/Tree-constructor-flags-root",
+                      "Tree(root) raises TreeError (index out of range) but root.is_root() is True afterwards and the "
+                      "node can no longer be used as a child"))
+    return V[:3]
+
+
 def _oracle_binnode(case):
     from biotite.sequence import phylo
     node = _build(case["tree"])
@@ -1083,6 +1482,14 @@ def _oracle(case):
         return _oracle_binnode(case)
     if k == "accessors":
         return _oracle_accessors(case)
+    if k == "api":
+        return _oracle_api(case)
+    if k == "refused":
+        return _oracle_refused(case)
+    if k == "matrix_shape":
+        return _oracle_shape(case)
+    if k == "deep_tree":
+        return _oracle_deep(case)
     return []
 
 
